@@ -7,7 +7,8 @@
 // recording wrapper of backend_test.go) in a scratch directory, with the repository's in-memory
 // development key manager and certificate authority doing real signing. Everything the oracle says
 // is derived from the directory tree before and after each run and from the record of what the run
-// published through the back end.
+// published through the back end. Histories are also run on ONE long-lived endorse.Context and through
+// the `endorse` command (a fresh or ONE cmd.MakeApp tree per history), see driver.
 package c13
 
 import (
@@ -20,6 +21,7 @@ import (
 	"encoding/pem"
 	"flag"
 	"fmt"
+	"io"
 	"io/fs"
 	"os"
 	"path"
@@ -31,6 +33,7 @@ import (
 	"time"
 	"unicode/utf8"
 
+	rcmd "github.com/google/gce-tcb-verifier/cmd"
 	"github.com/google/gce-tcb-verifier/cmd/output"
 	"github.com/google/gce-tcb-verifier/endorse"
 	"github.com/google/gce-tcb-verifier/keys"
@@ -38,10 +41,12 @@ import (
 	rpb "github.com/google/gce-tcb-verifier/proto/releases"
 	"github.com/google/gce-tcb-verifier/sev"
 	"github.com/google/gce-tcb-verifier/sign/memca"
+	"github.com/google/gce-tcb-verifier/storage/local"
 	"github.com/google/gce-tcb-verifier/tdx"
 	"github.com/google/gce-tcb-verifier/testing/nonprod/memkm"
 	"github.com/google/gce-tcb-verifier/testing/testsign"
 	spb "github.com/google/go-sev-guest/proto/sevsnp"
+	"github.com/spf13/cobra"
 	"google.golang.org/protobuf/encoding/prototext"
 	"google.golang.org/protobuf/proto"
 	"pgregory.net/rapid"
@@ -59,7 +64,7 @@ func checks(n int) { flag.Set("rapid.checks", strconv.Itoa(n)) }
 // Fixed parameters
 
 const (
-	outDir    = "rel/out"   // --out_dir, relative to the localnonvcs root
+	defOutDir = "rel/out"   // --out_dir of a pool that names none, relative to the localnonvcs root
 	imageName = "ovmf.fd"   // --snapshot image name (imageNames[0])
 	svsmName  = "svsm.igvm" // the name the snapshot method gives the SVSM image
 	endExt    = ".binarypb" // manifest-method endorsement files
@@ -77,8 +82,6 @@ var imageNames = []string{imageName, "b.fd"}
 var namePool = []string{"", "rc1", "endorsement", "sub/rc2"}
 
 var baseTime = time.Date(2024, time.March, 15, 15, 30, 0, 0, time.UTC)
-
-var manifestRel = path.Join(outDir, endorse.ManifestFile)
 
 // Root-cause keys.
 const (
@@ -185,17 +188,32 @@ func (s *signing) signedDigest(b []byte) verified {
 type poolSpec struct {
 	ImageSeeds []int    `json:"image_seeds"` // fwgen example seeds (closure / regression pools)
 	Names      []string `json:"names"`
+	OutDir     *string  `json:"out_dir,omitempty"` // --out_dir (clean, relative to the back end's root); nil = rel/out
 }
+
+func strp(s string) *string { return &s }
 
 type pool struct {
 	images  [][]byte
 	digests [][]byte
 	byHex   map[string]int
 	names   []string
+	outDir  string // --out_dir, clean ("" = the back end's root itself)
 }
 
-func newPool(images [][]byte, names []string) *pool {
-	p := &pool{images: images, names: names, byHex: map[string]int{}}
+func newPool(images [][]byte, names []string) *pool { return newPoolIn(defOutDir, images, names) }
+
+func newPoolIn(outDir string, images [][]byte, names []string) *pool {
+	p := &pool{images: images, names: names, byHex: map[string]int{}, outDir: outDir}
+	if outDir != "" && (path.Clean(outDir) != outDir || path.IsAbs(outDir) || outDir == "." || strings.HasPrefix(outDir, "..")) {
+		panic("harness: the out_dir of a pool is given clean and relative: " + outDir)
+	}
+	for _, n := range names {
+		// No candidate name may lead out of the scratch directory.
+		if f := path.Join(outDir, basenameOf(n)); f == ".." || strings.HasPrefix(f, "../") || path.IsAbs(f) {
+			panic("harness: candidate name " + strconv.Quote(n) + " leaves the scratch root from out_dir " + outDir)
+		}
+	}
 	for i, img := range images {
 		d := sha512.Sum384(img)
 		p.digests = append(p.digests, d[:])
@@ -232,7 +250,29 @@ func fixedPool(ps poolSpec) *pool {
 	for _, l := range ls {
 		images = append(images, l.Spec.Build())
 	}
+	if ps.OutDir != nil {
+		return newPoolIn(*ps.OutDir, images, ps.Names)
+	}
 	return newPool(images, ps.Names)
+}
+
+// manifestRel: the root-relative path of the manifest.
+func (p *pool) manifestRel() string { return path.Join(p.outDir, endorse.ManifestFile) }
+
+// fileOf gives the root-relative clean path of the file a manifest entry names (entry paths are
+// relative to the manifest's directory).
+func (p *pool) fileOf(entryPath string) string { return path.Join(p.outDir, entryPath) }
+
+// inOut says whether the root-relative clean path rel lies inside the out dir and how it is called
+// from there.
+func (p *pool) inOut(rel string) (string, bool) {
+	if p.outDir == "" {
+		return rel, true
+	}
+	if strings.HasPrefix(rel, p.outDir+"/") {
+		return strings.TrimPrefix(rel, p.outDir+"/"), true
+	}
+	return rel, false
 }
 
 type action struct {
@@ -250,6 +290,8 @@ type action struct {
 	// every write goes straight to disk, nothing is rolled back). Only armed for a manifest-method run
 	// whose target endorsement file does not exist yet; otherwise the run is executed without a fault.
 	WT bool `json:"wt,omitempty"`
+	// OutSp: index into outSpellings, how this run writes the pool's --out_dir (0 = clean).
+	OutSp int `json:"out_sp,omitempty"`
 }
 
 const (
@@ -272,6 +314,9 @@ func (a action) String() string {
 	}
 	if a.Dry {
 		ext += " dry"
+	}
+	if a.OutSp > 0 {
+		ext += " out_dir-" + outSpellings[a.OutSp].label
 	}
 	if a.Fault > 0 && a.WT {
 		ext += fmt.Sprintf(" wt-fault@%d", a.Fault)
@@ -297,12 +342,13 @@ func (a action) targets(p *pool) []string {
 		}
 		return t
 	}
-	return []string{path.Join(outDir, basenameOf(p.names[a.Name]))}
+	return []string{path.Join(p.outDir, basenameOf(p.names[a.Name]))}
 }
 
 type history struct {
 	Pool    poolSpec `json:"pool"`
 	Actions []action `json:"actions"`
+	Driver  int      `json:"driver,omitempty"` // who runs it (0 = a fresh endorse.Context per run)
 }
 
 func basenameOf(candidate string) string {
@@ -389,8 +435,8 @@ func isEndorsementFile(rel string) bool {
 	return strings.HasSuffix(rel, endExt) || strings.HasSuffix(rel, sigExt)
 }
 
-func parseManifest(t tree) (*rpb.VMEndorsementMap, bool, error) {
-	b, ok := t[manifestRel]
+func parseManifest(t tree, p *pool) (*rpb.VMEndorsementMap, bool, error) {
+	b, ok := t[p.manifestRel()]
 	if !ok {
 		return &rpb.VMEndorsementMap{}, false, nil
 	}
@@ -422,6 +468,14 @@ type world struct {
 	log    []string
 	rec    *recVCS // the back end of the run just executed
 	disarm bool    // the run about to be executed must not get its fault (write-through precondition not met)
+
+	drv   driver
+	ec    *endorse.Context // drvOneContext: the Context every run of the history uses
+	app   *cobra.Command   // drvOneCLI: the command tree every run of the history executes
+	appTS time.Time        // drvOneCLI: the timestamp the tree was given on its first command line
+	fwDir string           // CLI drivers: where the firmware files lie
+	uses  int              // runs executed so far
+	prev  *action          // the run before this one
 }
 
 // wtArmed: a write-through fault is only injected into a manifest-method run that creates a NEW
@@ -445,6 +499,160 @@ var (
 
 func (w *world) trace() string { return strings.Join(w.log, "; ") }
 
+// driver: who calls the code under test, and how long the objects it is called with live. The
+// statement speaks of "any sequence of endorse runs": nothing in it ties a run to a fresh process.
+type driver int
+
+const (
+	// drvFresh: endorse.VirtualFirmware with a fresh endorse.Context per run (a process per run).
+	drvFresh driver = iota
+	// drvOneContext: ONE endorse.Context (and its SEV-SNP/TDX request objects) for the whole history;
+	// every run assigns each of its inputs to it again (a long-lived signing service).
+	drvOneContext
+	// drvCLI: the `endorse` command of a fresh cmd.MakeApp tree per run, the run spelled as flags and
+	// the firmware read from a file.
+	drvCLI
+	// drvOneCLI: the `endorse` command of ONE cmd.MakeApp tree, executed once per run with every flag
+	// spelled out again (a package-level root command executed repeatedly). --timestamp can only be
+	// given to a command tree once: every run of the history carries the first run's timestamp.
+	drvOneCLI
+)
+
+var driverNames = []string{"fresh-context", "one-context", "cli-fresh-tree", "cli-one-tree"}
+
+func (d driver) String() string { return driverNames[d] }
+
+const snpImageID = "87654321-dead-beef-c0de-123456789abc"
+
+// inputs: what one run is given, whoever passes it on.
+type inputs struct {
+	img, imgName   int
+	candidate      string
+	outDir         string
+	snapshotDir    string
+	svsm           bool
+	ts             time.Time
+	dry, overwrite bool
+}
+
+func (w *world) newEndorseContext() *endorse.Context {
+	return &endorse.Context{
+		SevSnp: &sev.SnpEndorsementRequest{
+			Svn:         2,
+			FamilyID:    sev.GCEUefiFamilyID,
+			ImageID:     snpImageID,
+			LaunchVmsas: 1,
+			Product:     spb.SevProduct_SEV_PRODUCT_MILAN,
+		},
+		Tdx:    &tdx.EndorsementRequest{Svn: 3},
+		ClSpec: 4321,
+	}
+}
+
+// assign sets every per-run input of ec (all of them, so that a reused Context carries nothing of the
+// previous run that its caller did not put there).
+func (w *world) assign(ec *endorse.Context, in inputs) {
+	ec.Image = w.p.images[in.img]
+	ec.ImageName = imageNames[in.imgName] // the CLI always sets it (base name of --uefi)
+	ec.VCS = w.rec
+	ec.Timestamp = in.ts
+	ec.OutDir = in.outDir
+	ec.CandidateName = in.candidate
+	ec.DryRun = in.dry
+	ec.SnapshotDir = in.snapshotDir
+	ec.SvsmImage, ec.SvsmSnpMeasurement = nil, nil
+	if in.svsm {
+		ec.SvsmImage, ec.SvsmSnpMeasurement = svsmImage, svsmMeasurement
+	}
+}
+
+// fwFile returns the path of a file <scratch>/img<i>/<image name> holding image i (outside the tree
+// the back end works in).
+func (w *world) fwFile(img, imgName int) string {
+	if w.fwDir == "" {
+		d, err := os.MkdirTemp("", "c13-fw-")
+		if err != nil {
+			panic("harness: " + err.Error())
+		}
+		w.fwDir = d
+		if err := os.WriteFile(filepath.Join(d, "svsm.igvm"), svsmImage, 0o644); err != nil {
+			panic("harness: " + err.Error())
+		}
+		if err := os.WriteFile(filepath.Join(d, "svsm.measurement"), []byte(hex.EncodeToString(svsmMeasurement)+"\n"), 0o644); err != nil {
+			panic("harness: " + err.Error())
+		}
+	}
+	f := filepath.Join(w.fwDir, "img"+strconv.Itoa(img), imageNames[imgName])
+	if _, err := os.Stat(f); err != nil {
+		if err := os.MkdirAll(filepath.Dir(f), 0o755); err != nil {
+			panic("harness: " + err.Error())
+		}
+		if err := os.WriteFile(f, w.p.images[img], 0o644); err != nil {
+			panic("harness: " + err.Error())
+		}
+	}
+	return f
+}
+
+// newApp builds a command tree whose endorse command signs with the development keys and commits
+// through the back end of the run being executed (w.rec at the time of the execution).
+func (w *world) newApp() *cobra.Command {
+	keysComp := &rcmd.PartialComponent{FInitContext: func(ctx context.Context) (context.Context, error) {
+		kc, err := keys.FromContext(ctx)
+		if err != nil {
+			return nil, err
+		}
+		kc.CA, kc.Manager, kc.Signer = w.sg.kc.CA, w.sg.kc.Manager, w.sg.kc.Signer
+		return ctx, nil
+	}}
+	vcsComp := &rcmd.PartialComponent{FInitContext: func(ctx context.Context) (context.Context, error) {
+		ec, err := endorse.FromContext(ctx)
+		if err != nil {
+			return nil, err
+		}
+		ec.VCS = w.rec
+		return ctx, nil
+	}}
+	app := rcmd.MakeApp(context.Background(), &rcmd.AppComponents{
+		Global:          keysComp,
+		Endorse:         vcsComp,
+		SignatureRandom: testsign.RootRand(),
+		Storage:         &local.StorageClient{},
+	})
+	app.SilenceUsage, app.SilenceErrors = true, true
+	app.SetOut(io.Discard)
+	app.SetErr(io.Discard)
+	return app
+}
+
+// cliArgs spells the run as a command line. Every flag is given on every command line, so that a
+// command tree that is executed again has been told everything again.
+func (w *world) cliArgs(in inputs, withTimestamp bool) []string {
+	args := []string{"endorse", "--quiet",
+		"--uefi=" + w.fwFile(in.img, in.imgName),
+		"--add_snp", "--add_tdx",
+		"--snp_family_id=" + sev.GCEUefiFamilyID,
+		"--snp_image_id=" + snpImageID,
+		"--snp_launch_vmsas=1",
+		"--snp_product=Milan",
+		"--clspec=4321",
+		"--out_dir=" + in.outDir,
+		"--candidate_name=" + in.candidate,
+		"--snapshot_dir=" + in.snapshotDir,
+		"--overwrite=" + strconv.FormatBool(in.overwrite),
+		"--dry_run=" + strconv.FormatBool(in.dry),
+	}
+	if in.svsm {
+		args = append(args, "--svsm_path="+filepath.Join(w.fwDir, "svsm.igvm"), "--svsm_snp_measurement_path="+filepath.Join(w.fwDir, "svsm.measurement"))
+	} else {
+		args = append(args, "--svsm_path=", "--svsm_snp_measurement_path=")
+	}
+	if withTimestamp {
+		args = append(args, "--timestamp="+in.ts.Format(time.RFC3339))
+	}
+	return args
+}
+
 // run executes one endorse run with the real code.
 func (w *world) run(a action) (err error, pan any) {
 	w.tick++
@@ -459,40 +667,31 @@ func (w *world) run(a action) (err error, pan any) {
 	case tsBack:
 		ts = baseTime.Add(-time.Duration(w.tick) * time.Second)
 	}
+	if w.drv == drvOneCLI && w.app != nil {
+		ts = w.appTS // the command tree keeps the timestamp it was first given
+	}
 	w.lastTS = ts
 	failAt := a.Fault
 	if w.disarm {
 		failAt = 0
 	}
-	w.rec = newRecVCS(w.root, failAt > 0 && !a.WT, failAt)
-	ec := &endorse.Context{
-		SevSnp: &sev.SnpEndorsementRequest{
-			Svn:         2,
-			FamilyID:    sev.GCEUefiFamilyID,
-			ImageID:     "87654321-dead-beef-c0de-123456789abc",
-			LaunchVmsas: 1,
-			Product:     spb.SevProduct_SEV_PRODUCT_MILAN,
-		},
-		Tdx:           &tdx.EndorsementRequest{Svn: 3},
-		ClSpec:        4321,
-		Image:         w.p.images[a.Img],
-		VCS:           w.rec,
-		Timestamp:     ts,
-		OutDir:        outDir,
-		CandidateName: w.p.names[a.Name],
-		DryRun:        a.Dry,
-		ImageName:     imageNames[a.ImgName], // the CLI always sets it (base name of --uefi)
+	if w.rec != nil && (w.drv == drvOneContext || w.drv == drvOneCLI) {
+		// A long-lived Context keeps its version-control object as well (VirtualFirmware latches the
+		// first ec.VCS it sees into ec.VCSs): one back end object for the history, told about each run.
+		w.rec.reset(failAt > 0 && !a.WT, failAt)
+	} else {
+		w.rec = newRecVCS(w.root, failAt > 0 && !a.WT, failAt)
+	}
+	in := inputs{
+		img: a.Img, imgName: a.ImgName,
+		candidate: w.p.names[a.Name],
+		outDir:    outSpellings[a.OutSp].spell(w.p.outDir),
+		ts:        ts, dry: a.Dry, overwrite: a.Overwrite,
 	}
 	if a.Snap > 0 {
-		ec.SnapshotDir = snapDirs[a.Snap]
-		if a.Svsm {
-			ec.SvsmImage = svsmImage
-			ec.SvsmSnpMeasurement = svsmMeasurement
-		}
+		in.snapshotDir = snapDirs[a.Snap]
+		in.svsm = a.Svsm
 	}
-	ctx := output.NewContext(context.Background(), &output.Options{Quiet: true, Overwrite: a.Overwrite})
-	ctx = keys.NewContext(ctx, w.sg.kc)
-	ctx = endorse.NewContext(ctx, ec)
 	defer func() {
 		if r := recover(); r != nil {
 			if s, ok := r.(string); ok && strings.HasPrefix(s, "harness:") {
@@ -501,6 +700,32 @@ func (w *world) run(a action) (err error, pan any) {
 			pan = r
 		}
 	}()
+	w.uses++
+	switch w.drv {
+	case drvCLI, drvOneCLI:
+		app := w.app
+		first := app == nil
+		if first {
+			app = w.newApp()
+			if w.drv == drvOneCLI {
+				w.app, w.appTS = app, ts
+			}
+		}
+		w.fwFile(in.img, in.imgName)
+		app.SetArgs(w.cliArgs(in, first))
+		return app.Execute(), nil
+	}
+	ec := w.ec
+	if ec == nil {
+		ec = w.newEndorseContext()
+		if w.drv == drvOneContext {
+			w.ec = ec
+		}
+	}
+	w.assign(ec, in)
+	ctx := output.NewContext(context.Background(), &output.Options{Quiet: true, Overwrite: a.Overwrite})
+	ctx = keys.NewContext(ctx, w.sg.kc)
+	ctx = endorse.NewContext(ctx, ec)
 	err = endorse.VirtualFirmware(ctx)
 	return
 }
@@ -532,16 +757,12 @@ func ascii(s string) string {
 	return q[1 : len(q)-1]
 }
 
-// fileOf gives the root-relative clean path of the file a manifest entry names (entry paths are
-// relative to the manifest's directory).
-func fileOf(entryPath string) string { return path.Join(outDir, entryPath) }
-
 // abstractState renders the part of the tree the code's behaviour depends on: the manifest as an
 // ordered list of (image index, path as spelled), the set of endorsement files present in the out dir
 // and the set of snapshot-method endorsement files (<snapshot_dir>/<name>.signed) present.
 func abstractState(t tree, p *pool, ordered bool) string {
 	var ents []string
-	if m, _, err := parseManifest(t); err == nil {
+	if m, _, err := parseManifest(t, p); err == nil {
 		for _, e := range m.GetEntries() {
 			i, ok := p.byHex[hex.EncodeToString(e.GetDigest())]
 			img := "img?"
@@ -558,8 +779,12 @@ func abstractState(t tree, p *pool, ordered bool) string {
 	}
 	var files []string
 	for rel := range t {
-		if strings.HasPrefix(rel, outDir+"/") && strings.HasSuffix(rel, endExt) {
-			files = append(files, ascii(strings.TrimPrefix(rel, outDir+"/")))
+		if strings.HasSuffix(rel, endExt) {
+			if in, inside := p.inOut(rel); inside {
+				files = append(files, ascii(in))
+			} else {
+				files = append(files, "//"+ascii(rel)) // outside the out dir: from the root
+			}
 		}
 	}
 	sort.Strings(files)
@@ -583,13 +808,13 @@ func classify(a action, pre tree, p *pool) (mergeCase string, targetExists bool)
 	if a.Snap > 0 {
 		return "snapshot", targetExists
 	}
-	m, _, err := parseManifest(pre)
+	m, _, err := parseManifest(pre, p)
 	if err != nil {
 		return "pre-unparsable", targetExists
 	}
 	pi, di := -1, -1
 	for i, e := range m.GetEntries() {
-		if fileOf(e.GetPath()) == targets[0] {
+		if p.fileOf(e.GetPath()) == targets[0] {
 			pi = i
 		}
 		if bytes.Equal(e.GetDigest(), p.digests[a.Img]) {
@@ -620,6 +845,7 @@ func (w *world) judge(a action, pre, post tree, err error, pan any) (*verdict, r
 	res.preState = abstractState(pre, w.p, true)
 	res.postState = abstractState(post, w.p, true)
 	res.dirSame = sameTree(pre, post)
+	manifestRel := w.p.manifestRel()
 	_, manBefore := pre[manifestRel]
 	_, manAfter := post[manifestRel]
 	res.manSame = manBefore == manAfter && bytes.Equal(pre[manifestRel], post[manifestRel])
@@ -628,7 +854,7 @@ func (w *world) judge(a action, pre, post tree, err error, pan any) (*verdict, r
 		if err != nil {
 			e = err.Error()
 		}
-		return fmt.Sprintf(" | run %d: %s returned %s | before: %s | after: %s | history: %s", w.tick, a, e, res.preState, res.postState, w.trace())
+		return fmt.Sprintf(" | run %d: %s returned %s | before: %s | after: %s | out_dir %q, driver %s | history: %s", w.tick, a, e, res.preState, res.postState, w.p.outDir, w.drv, w.trace())
 	}
 	bad := func(key, f string, args ...any) (*verdict, result) {
 		return &verdict{Key: key, Msg: fmt.Sprintf(f, args...) + ctxt()}, res
@@ -651,7 +877,7 @@ func (w *world) judge(a action, pre, post tree, err error, pan any) (*verdict, r
 	if err == nil && a.Snap == 0 && !a.Dry {
 		l := &lastOK{run: w.tick, act: a, digest: w.p.digests[a.Img], wrote: map[string][32]byte{}}
 		for _, rel := range w.rec.order {
-			if rel != manifestRel && strings.HasPrefix(rel, outDir+"/") {
+			if rel != manifestRel { // the endorsement file may lie outside the out dir (candidate name ../shared/rc1)
 				l.wrote[rel] = w.rec.published[rel]
 			}
 		}
@@ -659,7 +885,7 @@ func (w *world) judge(a action, pre, post tree, err error, pan any) (*verdict, r
 	}
 
 	// The manifest parses.
-	m, present, perr := parseManifest(post)
+	m, present, perr := parseManifest(post, w.p)
 	if perr != nil {
 		return bad(kUnparsable, "manifest does not parse as text-format VMEndorsementMap: %v", perr)
 	}
@@ -667,7 +893,7 @@ func (w *world) judge(a action, pre, post tree, err error, pan any) (*verdict, r
 	// name one file, however they spell it.
 	paths, digests := map[string]int{}, map[string]int{}
 	for i, e := range m.GetEntries() {
-		cp := fileOf(e.GetPath())
+		cp := w.p.fileOf(e.GetPath())
 		if j, dup := paths[cp]; dup {
 			if other := m.GetEntries()[j]; other.GetPath() != e.GetPath() {
 				is := "nothing verifiable"
@@ -688,7 +914,7 @@ func (w *world) judge(a action, pre, post tree, err error, pan any) (*verdict, r
 	}
 	// Every entry names an existing, authentic endorsement whose signed digest is the entry's digest.
 	for i, e := range m.GetEntries() {
-		rel := fileOf(e.GetPath())
+		rel := w.p.fileOf(e.GetPath())
 		b, ok := post[rel]
 		if !ok {
 			return bad(kFileMissing, "manifest entry %d names %q but there is no such file next to the manifest", i, e.GetPath())
@@ -712,7 +938,7 @@ func (w *world) judge(a action, pre, post tree, err error, pan any) (*verdict, r
 		if !ok {
 			return bad(kLatest, "the firmware digest of the latest successful %s is not in the manifest", who)
 		}
-		rel := fileOf(m.GetEntries()[i].GetPath())
+		rel := w.p.fileOf(m.GetEntries()[i].GetPath())
 		sum, ok := l.wrote[rel]
 		if !ok {
 			var ws []string
@@ -837,13 +1063,54 @@ func (w *world) judge(a action, pre, post tree, err error, pan any) (*verdict, r
 
 	// Dimensions worth counting in the evidence.
 	if a.Snap == 0 {
-		if n := w.p.names[a.Name]; path.Join(outDir, basenameOf(n)) != outDir+"/"+basenameOf(n) {
+		target := a.targets(w.p)[0]
+		alias := basenameOf(w.p.names[a.Name]) != relFrom(w.p.outDir, target)
+		if alias {
 			d := "dim/alias-spelling"
 			if targetExists {
 				d += "+file-exists"
 			}
 			res.dims = append(res.dims, d)
 		}
+		// The candidate name leads OUTSIDE the out dir (../shared/rc1): the entry path starts with "..".
+		if _, inside := w.p.inOut(target); !inside {
+			d := "dim/name-outside-out_dir/" + w.p.outDirKind()
+			if alias {
+				d += "+alias-spelling"
+			}
+			if targetExists {
+				d += "+file-exists"
+			}
+			if res.outcome == "ok" {
+				d += "+listed"
+			}
+			res.dims = append(res.dims, d)
+		}
+		if a.OutSp > 0 {
+			res.dims = append(res.dims, "dim/out_dir-spelled-"+outSpellings[a.OutSp].label+"+"+res.mergeCase)
+		}
+	}
+	// Who ran it: the second and later uses of a long-lived Context / command tree are the ones in which
+	// something kept from an earlier run can show.
+	if w.drv != drvFresh {
+		d := "driver/" + w.drv.String()
+		if w.prev == nil {
+			d += "/run-1"
+		} else {
+			d += "/run-2+"
+			if w.prev.Img != a.Img {
+				d += "+other-image"
+			}
+			if w.prev.Snap == 0 && a.Snap == 0 && w.prev.Name != a.Name {
+				d += "+other-name"
+			}
+			if (w.prev.Snap > 0) != (a.Snap > 0) {
+				d += "+other-method"
+			}
+		}
+		res.dims = append(res.dims, d)
+	}
+	if a.Snap == 0 {
 		if a.TS != tsFresh && res.mergeCase != "append" {
 			res.dims = append(res.dims, map[int]string{tsSame: "dim/same-timestamp", tsBack: "dim/backdated"}[a.TS]+"+"+res.mergeCase)
 		}
@@ -867,6 +1134,46 @@ func (w *world) judge(a action, pre, post tree, err error, pan any) (*verdict, r
 		res.dims = append(res.dims, d)
 	}
 	return nil, res
+}
+
+// relFrom spells the root-relative clean path file as seen from the directory dir (clean, "" = the
+// root): the shortest relative path, which is how a manifest next to dir has to name the file if
+// every file is to have one name.
+func relFrom(dir, file string) string {
+	var from []string
+	if dir != "" {
+		from = strings.Split(dir, "/")
+	}
+	to := strings.Split(file, "/")
+	c := 0
+	for c < len(from) && c < len(to)-1 && from[c] == to[c] {
+		c++
+	}
+	return strings.Repeat("../", len(from)-c) + strings.Join(to[c:], "/")
+}
+
+// outDirKind: root (the out dir is the back end's root), flat (one element) or nested.
+func (p *pool) outDirKind() string {
+	switch {
+	case p.outDir == "":
+		return "root-out_dir"
+	case !strings.Contains(p.outDir, "/"):
+		return "flat-out_dir"
+	}
+	return "nested-out_dir"
+}
+
+// outSpellings: ways of writing the --out_dir of a run; all of them name the pool's out dir (the back
+// end joins the root and the path it is given).
+var outSpellings = []struct {
+	label string
+	spell func(clean string) string
+}{
+	{"clean", func(c string) string { return c }},
+	{"with-trailing-slash", func(c string) string { return c + "/" }},
+	{"with-leading-dot", func(c string) string { return "./" + c }},
+	{"with-double-slash", func(c string) string { return strings.Replace(c, "/", "//", 1) + "//" }},
+	{"through-a-subdirectory", func(c string) string { return c + "/sub/.." }},
 }
 
 func (w *world) imageLabel(d []byte) string {
@@ -899,6 +1206,7 @@ func (w *world) stepFrom(a action, pre tree) (*verdict, result, tree) {
 	w.log = append(w.log, fmt.Sprintf("%s=%s", a, e))
 	w.cur = post
 	v, res := w.judge(a, pre, post, err, pan)
+	w.prev = &a
 	return v, res, post
 }
 
@@ -953,7 +1261,18 @@ func newWorld(t ev.TB, p *pool) *world {
 	return &world{root: root, p: p, sg: getSigning(t)}
 }
 
-func (w *world) close() { os.RemoveAll(w.root) }
+func (w *world) close() {
+	os.RemoveAll(w.root)
+	if w.fwDir != "" {
+		os.RemoveAll(w.fwDir)
+	}
+}
+
+// with sets the driver of a world that has not run anything yet.
+func (w *world) with(d driver) *world {
+	w.drv = d
+	return w
+}
 
 // ---------------------------------------------------------------------------------------------
 // Plain regression replays (no generators). They run first so that the driver's one-line summary
@@ -968,8 +1287,12 @@ type st struct {
 
 // replay runs a hand-written history and judges every clause after every run.
 func replay(t *testing.T, name string, ps poolSpec, steps []st, allNontrivial bool) {
+	replayWith(t, name, ps, drvFresh, steps, allNontrivial)
+}
+
+func replayWith(t *testing.T, name string, ps poolSpec, drv driver, steps []st, allNontrivial bool) {
 	p := fixedPool(ps)
-	w := newWorld(t, p)
+	w := newWorld(t, p).with(drv)
 	defer w.close()
 	var c tally
 	var h []action
@@ -978,7 +1301,7 @@ func replay(t *testing.T, name string, ps poolSpec, steps []st, allNontrivial bo
 		v, res, _ := w.step(s.a)
 		if v != nil {
 			if !ev.IsKnown(v.Key) {
-				ev.SaveReplay("C13", "TestReplayHistory", history{Pool: ps, Actions: h})
+				ev.SaveReplay("C13", "TestReplayHistory", history{Pool: ps, Actions: h, Driver: int(drv)})
 			}
 			report(t, v)
 			c.known++
@@ -991,7 +1314,7 @@ func replay(t *testing.T, name string, ps poolSpec, steps []st, allNontrivial bo
 			ev.Note("C13 %s: step %s classified %q, the hand-written history expected %q (%s); the statement's clauses held", name, s.a, res.class, s.want, w.trace())
 		}
 		res.nontrivial = res.inconclusive == "" && (res.nontrivial || allNontrivial)
-		count(name, res, res.preState+"|"+s.a.String(), s.a)
+		count(name, res, drv.String()+"|"+res.preState+"|"+s.a.String(), s.a)
 	}
 	c.finish(t, name)
 }
@@ -1060,6 +1383,55 @@ func TestRegressionAliasNames(t *testing.T) {
 	}, false)
 }
 
+// outsidePool: two images and four candidate names from a run with --out_dir outDir: three
+// spellings of ONE file outside the out dir (the canonical one first) and rc1 inside it.
+func outsidePool(outDir, file string) poolSpec {
+	return poolSpec{ImageSeeds: []int{11, 12}, OutDir: strp(outDir), Names: append(spellings(outDir, file)[:3], "rc1")}
+}
+
+var (
+	outsideFlat   = outsidePool("out", "shared/rc1") // ../shared/rc1, .././shared/rc1, sub/../../shared/rc1
+	outsideNested = outsidePool("a/b", "a/c/rc1")    // ../c/rc1, ../../a/c/rc1, .././c/rc1
+)
+
+// Candidate names that lead OUTSIDE --out_dir (a directory shared by two release lines): the entry
+// path then starts with "..", and every spelling of the file has to end up as the same entry. Below a
+// nested out dir the file can also be reached over the root (../../a/c/rc1 for ../c/rc1): repaired
+// finding, key C13/candidate-name-alias-splits-entry.
+func TestRegressionOutsideNames(t *testing.T) {
+	const rule = "hand-written replay with --out_dir %s and candidate names %q, three spellings of ONE endorsement file OUTSIDE the out dir: endorse(img0, first spelling), endorse(img1, second spelling, overwrite=T), endorse(img0, third spelling, overwrite=T), endorse(img1, first spelling, overwrite=F: refused): every run after the first meets same-path-new-digest and the manifest must keep ONE entry for the file, carrying the digest signed inside it; all clauses of C13 after every run; non-trivial = the runs under another spelling; distinct = (state, action)"
+	steps := []st{
+		{action{Img: 0, Name: 0}, "ok/append"},
+		{action{Img: 1, Name: 1, Overwrite: true}, "ok/same-path-new-digest/overwriting"},
+		{action{Img: 0, Name: 2, Overwrite: true}, "ok/same-path-new-digest/overwriting"},
+		{action{Img: 1, Name: 0}, "refused/same-path-new-digest"},
+	}
+	ev.Rule("regression/outside-names/flat-out_dir", fmt.Sprintf(rule, *outsideFlat.OutDir, outsideFlat.Names[:3]))
+	replay(t, "regression/outside-names/flat-out_dir", outsideFlat, steps, false)
+	ev.Rule("regression/outside-names/nested-out_dir", fmt.Sprintf(rule, *outsideNested.OutDir, outsideNested.Names[:3]))
+	replay(t, "regression/outside-names/nested-out_dir", outsideNested, steps, false)
+}
+
+// One endorse.Context / one command tree serves a whole history: nothing of an earlier run (its
+// firmware, its digest, its candidate name, its commit method) may show in a later one.
+func TestRegressionLongLived(t *testing.T) {
+	const rule = "hand-written replay in which %s: endorse(img0, rc1); endorse(img1, rc2) (another firmware under another name: append); endorse(img2, rc1, overwrite=T) (same-path-new-digest); snapshot(img0 -> snap/a); endorse(img1, rc1, overwrite=T) (path and digest in different entries); endorse(img0, default name); all clauses of C13 after every run, in particular: every entry's digest is the digest signed inside its file, and the digest of the latest run maps to the file that run wrote; all non-trivial (every run after the first re-uses the object); distinct = (state, action)"
+	steps := []st{
+		{action{Img: 0, Name: 1}, "ok/append"},
+		{action{Img: 1, Name: 2}, "ok/append"},
+		{action{Img: 2, Name: 1, Overwrite: true}, "ok/same-path-new-digest/overwriting"},
+		{action{Img: 0, Snap: 1}, "snapshot/fresh-dir"},
+		{action{Img: 1, Name: 1, Overwrite: true}, "ok/path-and-digest-in-different-entries/overwriting"},
+		{action{Img: 0, Name: 0}, "ok/append"},
+	}
+	ev.Rule("regression/long-lived/one-context", fmt.Sprintf(rule, "ONE endorse.Context (with its request objects and its version-control object) is used for every run, each run assigning all its inputs to it again"))
+	replayWith(t, "regression/long-lived/one-context", regressionPool, drvOneContext, steps, true)
+	ev.Rule("regression/long-lived/cli-one-tree", fmt.Sprintf(rule, "the `endorse` command of ONE cmd.MakeApp tree is executed once per run, every flag spelled out on every command line (--timestamp only on the first: a tree accepts it once)"))
+	replayWith(t, "regression/long-lived/cli-one-tree", regressionPool, drvOneCLI, steps, true)
+	ev.Rule("regression/long-lived/cli-fresh-tree", fmt.Sprintf(rule, "the `endorse` command of a FRESH cmd.MakeApp tree per run is executed (the firmware read from a file, the run spelled as flags)"))
+	replayWith(t, "regression/long-lived/cli-fresh-tree", regressionPool, drvCLI, steps, true)
+}
+
 func TestRegressionSvsmSnapshot(t *testing.T) {
 	const name = "regression/svsm-snapshot"
 	ev.Rule(name, "hand-written replay of the snapshot method with an SVSM image (two endorsement files per run: <dir>/<image>.signed and <dir>/svsm.igvm.signed) and two firmware file names in one directory: snapshot(img0 as ovmf.fd +svsm -> snap/a, ow=F) succeeds; snapshot(img1 as b.fd +svsm, ow=F) meets an existing svsm.igvm.signed only (b.fd.signed is new) and must leave it byte-identical; snapshot(img1 as b.fd without svsm, ow=F) succeeds; snapshot(img2 as b.fd +svsm, ow=T) succeeds; all clauses of C13 after every run; all non-trivial; distinct = (state, action)")
@@ -1101,6 +1473,8 @@ func TestRegressionFaults(t *testing.T) {
 }
 
 var wtPool = poolSpec{ImageSeeds: []int{11, 12, 13}, Names: []string{"", "a1", "a2", "a3", "a4", "b1", "b2", "b3", "b4", "sub/c1", "sub/c2"}}
+
+const driverRule = "Driver, one per history (nominal 50/30/10/10 %): a fresh endorse.Context per run | ONE endorse.Context (with its SEV-SNP/TDX request objects and its version-control object: VirtualFirmware keeps the first one it is given) for the whole history, every run assigning all of its inputs to it again (long-lived signing service) | the `endorse` command of a fresh cmd.MakeApp tree per run (firmware read from a file, the run spelled as flags) | the `endorse` command of ONE cmd.MakeApp tree executed once per run with every flag spelled out again (--timestamp only on the first command line: a tree accepts it once, so every run carries the first timestamp); classes driver/<driver>/run-1 and driver/<driver>/run-2+[+other-image][+other-name][+other-method] count the runs by what differs from the run before on the same objects. "
 
 const wtRule = "write-through faults: the run goes to the plain write-through back end (localnonvcs as shipped: every write is on disk at once, Destroy rolls nothing back) and its k-th mutating step fails (a step = one file of a WriteOrCreateFiles call, one mode change, the commit; the files of a batch before the failing one are on disk). Only manifest-method runs whose target endorsement file does NOT exist yet get such a fault (a run that rewrites a file in place cannot be kept in step with its entry without roll-back, whatever the order: those get faults on the transactional back end only). After the failed run only the clauses that do not depend on its success are judged: manifest parses, no two entries name one file, digests distinct, every entry names an existing authentic endorsement whose signed digest equals the entry's, nothing replaced without overwrite; 'latest successful run' is not judged after a failed run that changed the tree"
 
@@ -1153,7 +1527,7 @@ func genPoolImages(t *rapid.T, n int) [][]byte {
 func TestSampledHistories(t *testing.T) {
 	const name = "histories/sampled"
 	const maxPool = 4
-	ev.Rule(name, "endorse.VirtualFirmware with localnonvcs (behind a recording pass-through) in a scratch directory and the development key manager/CA (real signatures); per history a pool of 2-4 generated firmware images (fwgen: 1-4 pages, SEV-SNP and TDX metadata, distinct bodies) and the first 2-4 of the candidate names {\"\" (default), rc1, endorsement (alias of the default), sub/rc2}; 1-10 runs, each endorse(image, name, overwrite in {F,T} (50% T), commit method in {manifest 80%, snapshot into snap/a or snap/b}); every run signs a document with a fresh timestamp. Oracle after EVERY run (failed ones included), from the directory tree before/after and the record of what the run published: manifest parses as text VMEndorsementMap; no two entries name one file; digests pairwise distinct; every entry's file exists next to the manifest, is an authentic endorsement under the development root (reference predicate) and the digest inside its signed payload equals the entry digest; the digest of the latest successful manifest-method run is in the manifest and maps to a file that run wrote, still holding what it wrote; a run without overwrite permission leaves every pre-existing *.binarypb / *.signed file that is still there byte-identical. Not judged, only classified (inconclusive/*): whether a run fails exactly when its target endorsement file exists and it has no overwrite permission. One evaluation = one run; non-trivial = a successful manifest-method run that meets same-path-new-digest, same-digest-new-path or path-and-digest-in-different-entries, or a snapshot-method run (successful or refused) one of whose target endorsement files exists; distinct = (abstract state before, action)")
+	ev.Rule(name, "endorse.VirtualFirmware with localnonvcs (behind a recording pass-through) in a scratch directory and the development key manager/CA (real signatures); per history a pool of 2-4 generated firmware images (fwgen: 1-4 pages, SEV-SNP and TDX metadata, distinct bodies) and the first 2-4 of the candidate names {\"\" (default), rc1, endorsement (alias of the default), sub/rc2}; 1-10 runs, each endorse(image, name, overwrite in {F,T} (50% T), commit method in {manifest 80%, snapshot into snap/a or snap/b}); every run signs a document with a fresh timestamp. "+driverRule+"Oracle after EVERY run (failed ones included), from the directory tree before/after and the record of what the run published: manifest parses as text VMEndorsementMap; no two entries name one file; digests pairwise distinct; every entry's file exists next to the manifest, is an authentic endorsement under the development root (reference predicate) and the digest inside its signed payload equals the entry digest; the digest of the latest successful manifest-method run is in the manifest and maps to a file that run wrote, still holding what it wrote; a run without overwrite permission leaves every pre-existing *.binarypb / *.signed file that is still there byte-identical. Not judged, only classified (inconclusive/*): whether a run fails exactly when its target endorsement file exists and it has no overwrite permission. One evaluation = one run; non-trivial = a successful manifest-method run that meets same-path-new-digest, same-digest-new-path or path-and-digest-in-different-entries, or a snapshot-method run (successful or refused) one of whose target endorsement files exists; distinct = (driver, abstract state before, action)")
 	checks(ev.Scale(250, 1200))
 	var c tally
 	rapid.Check(t, func(t *rapid.T) {
@@ -1165,7 +1539,7 @@ func TestSampledHistories(t *testing.T) {
 		for i := range acts {
 			acts[i] = genAction(t, nImg, nNames)
 		}
-		w := newWorld(t, p)
+		w := newWorld(t, p).with(driver(pick(t, "driver", 5, 3, 1, 1)))
 		defer w.close()
 		for _, a := range acts {
 			v, res, _ := w.step(a)
@@ -1174,7 +1548,7 @@ func TestSampledHistories(t *testing.T) {
 				return
 			}
 			c.add(res)
-			count(name, res, fmt.Sprintf("%d/%d|%s|%s", nImg, nNames, res.preState, a), a)
+			count(name, res, fmt.Sprintf("%d/%d|%s|%s|%s", nImg, nNames, w.drv, res.preState, a), a)
 		}
 	})
 	c.finish(t, name)
@@ -1187,23 +1561,104 @@ func TestSampledHistories(t *testing.T) {
 // manifest (quote, backslash, non-ASCII, newline) or cannot be a proto string at all (invalid UTF-8).
 var extCanon = []string{"", "rc1", "sub/rc2", "rc3", "rc4", `q"uo\te`, "naïve ü", "two\nlines", "bad\xffutf8"}
 
-// extAlias: further spellings of rc1 and sub/rc2.
-var extAlias = []string{"./rc1", "sub/../rc1", "../out/rc1", "sub//rc2", "endorsement"}
+// outsideFiles: endorsement files (root-relative, clean, without extension) OUTSIDE the out dir that a
+// candidate name can reach without leaving the back end's root: one in a sibling directory of the out
+// dir and, below a nested out dir, one in a directory next to its first ancestor.
+func outsideFiles(outDir string) []string {
+	if outDir == "" {
+		return nil
+	}
+	elems := strings.Split(outDir, "/")
+	out := []string{path.Join(path.Join(elems[:len(elems)-1]...), "shared", "rc7")}
+	if len(elems) >= 2 {
+		out = append(out, "top/rc8")
+	}
+	return out
+}
+
+// spellings lists candidate names that all mean the file <root>/<file>.binarypb for a run with
+// --out_dir outDir (file: root-relative, clean). The first is the canonical one (the shortest relative
+// path); then, as far as the out dir is deep enough: up to the root / one level more than needed and
+// back down by the names of the directories left (../../a/c/rc1 for ../c/rc1 below a/b, ../out/rc1
+// for rc1); a redundant "."; through a sub-directory of the out dir; a doubled slash; a detour x/.. .
+func spellings(outDir, file string) []string {
+	c := relFrom(outDir, file)
+	var elems []string
+	if outDir != "" {
+		elems = strings.Split(outDir, "/")
+	}
+	d := len(elems)
+	ups := strings.Count(c, "../")
+	up, rest := c[:3*ups], c[3*ups:]
+	out := []string{c}
+	add := func(n string) {
+		for _, o := range out {
+			if o == n {
+				return
+			}
+		}
+		out = append(out, n)
+	}
+	for _, k := range []int{d, ups + 1} {
+		if k > ups && k <= d {
+			add(strings.Repeat("../", k) + path.Join(append(append([]string{}, elems[d-k:d-ups]...), rest)...))
+		}
+	}
+	add(up + "./" + rest)
+	add("sub/../" + c)
+	if i := strings.LastIndex(rest, "/"); i >= 0 {
+		add(up + rest[:i] + "//" + rest[i+1:])
+		add(up + rest[:i] + "/x/../" + rest[i+1:])
+	} else {
+		add(up + "x/../" + rest)
+	}
+	for _, n := range out {
+		if path.Join(outDir, n) != file {
+			panic("harness: spelling " + n + " does not name " + file + " from " + outDir)
+		}
+	}
+	return out
+}
+
+// extOutDirs: the out dirs of histories/extended (nominal weights 4:3:2:1).
+var extOutDirs = []string{defOutDir, "out", "a/b/c", ""}
+
+// extNames builds the candidate names of one extended history: extCanon plus the canonical names of
+// the files outside the out dir; with aliases also "endorsement" and, for rc1, sub/rc2 and every
+// outside file, three of its other spellings (drawn).
+func extNames(t *rapid.T, outDir string, withAliases bool) []string {
+	names := append([]string{}, extCanon...)
+	files := []string{path.Join(outDir, "rc1"), path.Join(outDir, "sub/rc2")}
+	for _, f := range outsideFiles(outDir) {
+		names = append(names, relFrom(outDir, f))
+		files = append(files, f)
+	}
+	if !withAliases {
+		return names
+	}
+	names = append(names, "endorsement")
+	for _, f := range files {
+		sp := spellings(outDir, f)[1:]
+		k := rapid.IntRange(0, len(sp)-1).Draw(t, "firstSpelling")
+		for i := 0; i < 3 && i < len(sp); i++ {
+			names = append(names, sp[(k+i)%len(sp)])
+		}
+	}
+	return names
+}
 
 func TestExtendedHistories(t *testing.T) {
 	const name = "histories/extended"
-	ev.Rule(name, "as histories/sampled, with 5 firmware images and every input of a run varied: candidate names from {\"\", rc1, sub/rc2, rc3, rc4 (5 files: manifests of 4+ entries), names that need escaping in the text manifest (quote+backslash, non-ASCII, newline), a name that is not valid UTF-8}; in 30% of the histories also other SPELLINGS of the same files (./rc1, sub/../rc1, ../out/rc1, sub//rc2, endorsement); timestamp of the run in {fresh 40%, the previous run's again 20%, earlier than all so far 40%}; --dry_run 10%; snapshot method 20% into snap/a|snap/b with firmware file name ovmf.fd|b.fd and with/without an SVSM image (second endorsement file svsm.igvm.signed); 10% of the runs on the transactional back end with the k-th (1..5) mutating workspace operation failing; 12% (when the run is a manifest-method run whose target file does not exist) with a write-through fault k = 1..4 ("+wtRule+"). Actions are drawn one by one against the current tree: the name is steered (nominal weights, rapid leans to the first alternative: uniform 6, a name whose file exists 7, a name whose file exists but is not listed 5, a new name together with an image that is not listed 6 = the manifest grows), the image is otherwise steered (50% an image whose digest is listed). 1-12 runs. Oracle: all clauses of C13 after every run, as in histories/sampled; a dry run and a snapshot run do not become 'the latest successful run'. non-trivial = a successful manifest-method run that meets same-path-new-digest, same-digest-new-path or path-and-digest-in-different-entries, or a snapshot-method run (successful or refused) one of whose target endorsement files exists; distinct = (abstract state before, action); classes dim/* count the runs that exercise each varied input against existing state")
+	ev.Rule(name, "as histories/sampled, with 5 firmware images and every input of a run varied: candidate names from {\"\", rc1, sub/rc2, rc3, rc4 (5 files: manifests of 4+ entries), names that need escaping in the text manifest (quote+backslash, non-ASCII, newline), a name that is not valid UTF-8}; --out_dir per history from {rel/out, out (flat), a/b/c, \"\" = the back end's root} (nominal 4:3:2:1) and, unless the out dir is the root, in 1 run of 5 WRITTEN another way (trailing slash, leading ./, doubled slash, through a sub-directory: classes dim/out_dir-spelled-*); candidate names that lead OUTSIDE the out dir (../shared/rc7 next to the out dir, below a nested out dir also ../../top/rc8 next to its first ancestor: the entry path starts with \"..\"; classes dim/name-outside-out_dir/{flat,nested}-out_dir[+alias-spelling][+file-exists][+listed]); in 30% of the histories also other SPELLINGS of the files rc1, sub/rc2 and of every outside file, three drawn per file from {up to the root or one level more than needed and back down by the names of the directories left (../out/rc1, ../../rel/shared/rc7), a redundant ./, through a sub-directory of the out dir (sub/../rc1, sub/../../shared/rc7), a doubled slash, a detour x/..}, and endorsement (= the default name); "+driverRule+"timestamp of the run in {fresh 40%, the previous run's again 20%, earlier than all so far 40%}; --dry_run 10%; snapshot method 20% into snap/a|snap/b with firmware file name ovmf.fd|b.fd and with/without an SVSM image (second endorsement file svsm.igvm.signed); 10% of the runs on the transactional back end with the k-th (1..5) mutating workspace operation failing; 12% (when the run is a manifest-method run whose target file does not exist) with a write-through fault k = 1..4 ("+wtRule+"). Actions are drawn one by one against the current tree: the name is steered (nominal weights, rapid leans to the first alternative: uniform 6, a name whose file exists 7, a name whose file exists but is not listed 5, a new name together with an image that is not listed 6 = the manifest grows), the image is otherwise steered (50% an image whose digest is listed). 1-12 runs. Oracle: all clauses of C13 after every run, as in histories/sampled; a dry run and a snapshot run do not become 'the latest successful run'. non-trivial = a successful manifest-method run that meets same-path-new-digest, same-digest-new-path or path-and-digest-in-different-entries, or a snapshot-method run (successful or refused) one of whose target endorsement files exists; distinct = (out dir, driver, abstract state before, action); classes dim/* count the runs that exercise each varied input against existing state")
 	checks(ev.Scale(350, 1500))
 	var c tally
 	rapid.Check(t, func(t *rapid.T) {
 		const nImg = 5
-		names := extCanon
-		if pick(t, "withAliases", 7, 3) == 1 {
-			names = append(append([]string{}, extCanon...), extAlias...)
-		}
-		p := newPool(genPoolImages(t, nImg), names)
+		outDir := extOutDirs[pick(t, "outDir", 4, 3, 2, 1)]
+		names := extNames(t, outDir, pick(t, "withAliases", 7, 3) == 1)
+		p := newPoolIn(outDir, genPoolImages(t, nImg), names)
 		n := rapid.IntRange(1, 12).Draw(t, "runs")
-		w := newWorld(t, p)
+		w := newWorld(t, p).with(driver(pick(t, "driver", 5, 3, 1, 1)))
 		defer w.close()
 		cur := tree{}
 		for i := 0; i < n; i++ {
@@ -1216,7 +1671,7 @@ func TestExtendedHistories(t *testing.T) {
 			}
 			cur = post
 			c.add(res)
-			count(name, res, fmt.Sprintf("%d|%s|%s", len(names), res.preState, a), a)
+			count(name, res, fmt.Sprintf("%s|%s|%d|%s|%s", outDir, w.drv, len(names), res.preState, a), a)
 		}
 	})
 	c.finish(t, name)
@@ -1245,9 +1700,9 @@ func genExtAction(t *rapid.T, p *pool, cur tree) action {
 	// which names have a file / an unlisted file, which images are listed
 	listed := map[string]bool{}
 	var listedImgs []int
-	if m, _, err := parseManifest(cur); err == nil {
+	if m, _, err := parseManifest(cur, p); err == nil {
 		for _, e := range m.GetEntries() {
-			listed[fileOf(e.GetPath())] = true
+			listed[p.fileOf(e.GetPath())] = true
 			if i, ok := p.byHex[hex.EncodeToString(e.GetDigest())]; ok {
 				listedImgs = append(listedImgs, i)
 			}
@@ -1258,7 +1713,7 @@ func genExtAction(t *rapid.T, p *pool, cur tree) action {
 		if !utf8.ValidString(n) {
 			continue // can never be listed: only drawn uniformly
 		}
-		rel := path.Join(outDir, basenameOf(n))
+		rel := path.Join(p.outDir, basenameOf(n))
 		if _, ok := cur[rel]; ok {
 			existing = append(existing, i)
 			if !listed[rel] {
@@ -1299,6 +1754,9 @@ func genExtAction(t *rapid.T, p *pool, cur tree) action {
 		a.Img = rapid.IntRange(0, len(p.images)-1).Draw(t, "img")
 	}
 	a.TS = pick(t, "ts", 4, 2, 4) // tsFresh, tsSame, tsBack
+	if p.outDir != "" {
+		a.OutSp = pick(t, "outDirSpelling", 16, 1, 1, 1, 1)
+	}
 	if pick(t, "snapshot", 16, 4) == 1 {
 		a.Snap = rapid.IntRange(1, len(snapDirs)-1).Draw(t, "snapDir")
 		a.ImgName = rapid.IntRange(0, len(imageNames)-1).Draw(t, "imageName")
@@ -1470,6 +1928,48 @@ func TestClosureAliases(t *testing.T) {
 	closure(t, name, aliasPool, true, 2000, manifestActions(2, 4))
 }
 
+const outsideClosureRule = "2 firmware images x candidate names %q with --out_dir %s: three spellings of ONE endorsement file outside the out dir (entry path starting with \"..\") and a name inside it; actions = image x name x overwrite{F,T}, manifest method: "
+
+func TestClosureOutsideNames(t *testing.T) {
+	if s, _ := strconv.Atoi(os.Getenv("VERIF_SHARD")); s != 0 {
+		t.Skip("shard 0 runs the closures")
+	}
+	ev.Rule("closure/outside-names/flat-out_dir", fmt.Sprintf(outsideClosureRule, outsideFlat.Names, *outsideFlat.OutDir)+closureRule)
+	closure(t, "closure/outside-names/flat-out_dir", outsideFlat, true, 2000, manifestActions(2, 4))
+	ev.Rule("closure/outside-names/nested-out_dir", fmt.Sprintf(outsideClosureRule, outsideNested.Names, *outsideNested.OutDir)+closureRule)
+	closure(t, "closure/outside-names/nested-out_dir", outsideNested, true, 2000, manifestActions(2, 4))
+}
+
+// Thorough: every spelling the generator knows of two outside files and of one inside file below a
+// three-level out dir, and each way of writing the out dir itself.
+func TestClosureOutsideNamesDeep(t *testing.T) {
+	if ev.Tier() != "thorough" {
+		t.Skip("thorough tier only")
+	}
+	if s, _ := strconv.Atoi(os.Getenv("VERIF_SHARD")); s != 0 {
+		t.Skip("shard 0 runs the closures")
+	}
+	const name = "closure/outside-names/deep-out_dir"
+	const outDir = "a/b/c"
+	var names []string
+	for _, f := range append(outsideFiles(outDir), outDir+"/rc1") {
+		names = append(names, spellings(outDir, f)...)
+	}
+	ev.Rule(name, fmt.Sprintf("2 firmware images x candidate names %q with --out_dir %s (all spellings the generator knows of the outside files %q and of rc1 inside the out dir) x overwrite{F,T}, manifest method, the out dir written clean; plus image x canonical names x overwrite=T with the out dir written in each of the other ways (trailing slash, leading ./, doubled slash, through a sub-directory), entry order abstracted away: ", names, outDir, outsideFiles(outDir))+closureRule)
+	acts := manifestActions(2, len(names))
+	for i := 0; i < 2; i++ {
+		for n, nm := range names {
+			if nm != relFrom(outDir, path.Join(outDir, nm)) {
+				continue
+			}
+			for sp := 1; sp < len(outSpellings); sp++ {
+				acts = append(acts, action{Img: i, Name: n, Overwrite: true, OutSp: sp})
+			}
+		}
+	}
+	closure(t, name, poolSpec{ImageSeeds: []int{1, 2}, OutDir: strp(outDir), Names: names}, false, 5000, acts)
+}
+
 func TestClosureWriteThroughFaults(t *testing.T) {
 	if s, _ := strconv.Atoi(os.Getenv("VERIF_SHARD")); s != 0 {
 		t.Skip("shard 0 runs the closures")
@@ -1506,7 +2006,7 @@ func TestReplayHistory(t *testing.T) {
 		t.Skip("no replay case")
 	}
 	p := fixedPool(h.Pool)
-	w := newWorld(t, p)
+	w := newWorld(t, p).with(driver(h.Driver))
 	defer w.close()
 	for _, a := range h.Actions {
 		v, _, _ := w.step(a)
